@@ -82,11 +82,14 @@ Definition ol_pop (s : ol) (i : Z) : res unit * ol :=
   | Raise x => (Raise x, s)
   end.
 
-(* __setitem__, int index:
-     self._order_entity(int(index), entity, True)     <- the index AS GIVEN (negative included)
+(* __setitem__, int index (as repaired by 60dfe78):
+     position = int(index)
+     if position < 0: position += len(self)
+     self._order_entity(position, entity, True)
      super().__setitem__(index, entity) *)
 Definition ol_setitem (s : ol) (i e : Z) : res unit * ol :=
-  let p' := order_entity i e true (pos s) in
+  let position := if i <? 0 then i + zlen (items s) else i in
+  let p' := order_entity position e true (pos s) in
   match py_setitem (items s) i e with
   | Ok l' => (Ok tt, mkOL l' p')
   | Raise x => (Raise x, mkOL (items s) p')
@@ -252,7 +255,7 @@ Definition ol_guard (s : ol) (o : oop) : bool :=
   | OExtend v | OIAdd v =>
       fresh_all v (items s) && (roa || forallb (unpositioned (pos s)) v)
   | OInsert _ e => negb (memz e (items s))
-  | OSetItem i e => negb (memz e (items s)) && (0 <=? i)      (* a negative index is stored as the position *)
+  | OSetItem _ e => negb (memz e (items s))
   | OSetSlice _ v => fresh_all v (items s)
   | OSort => Nat.leb (length (items s)) 1                       (* positions stay stale *)
   | OReverse => Nat.leb (length (items s)) 1
